@@ -388,7 +388,7 @@ func main() {
 	}
 	for ci := 0; ci < 4; ci++ {
 		conf := wconf{coal: ci%2 == 1, wt: ci/2 == 1, lens: []int{40, 25, 31}}
-		for kind := 0; kind < 6; kind++ {
+		for kind := 0; kind < 7; kind++ {
 			for mid := 0; mid <= 2; mid++ {
 				cutsT := []int{1, 8, 9, 10, 39}
 				if kind == 1 {
@@ -396,6 +396,9 @@ func main() {
 				}
 				if kind == 4 {
 					cutsT = []int{0, 1, 9, 39}
+				}
+				if kind == 6 {
+					cutsT = []int{0, 1, 9, 24}
 				}
 				if kind == 5 {
 					if !conf.wt {
@@ -414,7 +417,7 @@ func main() {
 					if tier == "thorough" {
 						kinds = errKinds
 					}
-					if kind == 2 || kind == 4 {
+					if kind == 2 || kind == 4 || kind == 6 {
 						kinds = append(kinds, "ok")
 					}
 					if kind == 1 || kind == 3 || kind == 5 {
